@@ -11,7 +11,8 @@ from lib import Prop, SkipCase
 import util
 from props import c05 as S
 from props.c06 import (make_measure, strip_vecs, structural_oracle, conservation_oracle, expm_herm, mode_of, TOL,
-                       propagator_herm, rel_dev)
+                       propagator_herm, rel_dev, duration_guard, apply_provenance, gen_provenance_cases, run_prelude,
+                       gen_prelude_cases)
 from props import c07w           # C07W hook: store-level tie (Evo/TDVPStore.v, two-site part)
 
 
@@ -27,17 +28,152 @@ def svd_params(spec):
                          renorm=spec.get("renorm", False), sum_trunc=spec.get("sum_trunc", False))
 
 
+# ---- IDENTIFIER SPELLINGS (round 7): oracle-only driver (the schedule recorder / the model tie speak n0, n1, ...) --------------
+
+
+def spell(par, spec):
+    """identifier of every node index under the spelling `spec`:
+    kind "path": the customary naming of a tree by positions - the root is spec["root"], a child is its parent's identifier +
+      separator + a letter (spec["letters"][node]: distinct among siblings, e.g. t, t_L, t_R, t_L_R; an only child may be the
+      "right" one); every inner node's identifier is a prefix of its descendants';
+    kind "prefix": identifiers that are prefixes / substrings of each other without following the tree (q, qq, qqq / s1, s12)."""
+    n = len(par)
+    if spec["kind"] == "path":
+        name = {0: spec["root"]}
+        for i in range(1, n):                      # parents have smaller indices
+            name[i] = name[par[i]] + spec["sep"] + spec["letters"][i]
+        return [name[i] for i in range(n)]
+    order = spec["order"]                          # a permutation of the indices
+    return [spec["root"] + spec["digits"][:order[i] + 1] for i in range(n)]
+
+
+def gen_spelling(rng, par, j):
+    """spelling of case number j of the family: every fifth one of kind "prefix", the others path namings that visit the
+    combinations (separator, letters) of SEPARATORS x ALPHABETS in turn (all nine within nine consecutive path cases); an only
+    child is the left or the right one in turn"""
+    n = len(par)
+    if j % 5 != 4:
+        pj = j - j // 5                            # running number among the path cases
+        seps = ["_", ".", ""]
+        als = [("L", "R", "M", "N", "O", "P"), ("0", "1", "2", "3", "4", "5"), ("a", "b", "c", "d", "e", "f")]
+        sep, al = seps[pj % 3], als[(pj // 3) % 3]
+        ch = util.children_of(par)
+        letters = {}
+        for i in range(n):
+            pick = list(range(len(ch[i]))) if len(ch[i]) != 1 else [(pj // 9 + 1 + i) % 2]
+            for c, k in zip(ch[i], pick):
+                letters[c] = al[k % len(al)] + ("" if k < len(al) else str(k))
+        return {"kind": "path", "root": rng.choice(["t", "t", "root", "x", "0"]), "sep": sep,
+                "letters": [letters.get(i, "") for i in range(n)]}
+    order = list(range(n))
+    rng.shuffle(order)
+    return {"kind": "prefix", "root": rng.choice(["q", "s", "n", "node"]), "digits": rng.choice(["1234567890", "qqqqqqqqqq", "_R_R_R_R_R", "0000000000"]),
+            "order": order}
+
+
+def _run_named_case(case):
+    """the two-site class on a system whose node identifiers are spelled by case["names"]: the state is rebuilt from the
+    tensors of the n0, n1, ... system (same tree, same children orders) under the new identifiers, the Hamiltonian's terms are
+    re-keyed, the TTNO is built on the renamed state.  Observations are translated BACK to n0, n1, ... (an identifier that is
+    not one of the spelled ones is kept with a leading "?"), so that the oracles of the other cases apply."""
+    try:
+        sysd = S.build_system(dict(case, ttno_shuffle=False))
+        T = copy.deepcopy(sysd["ttns"])
+        n = len(case["par"])
+        names = spell(case["par"], case["names"])
+        if len(set(names)) != n:
+            return {"skip": "spelling is not injective"}
+        nm = {f"n{i}": names[i] for i in range(n)}
+        inv = {v: k for k, v in nm.items()}
+        st = type(T)()
+        for x in T.nodes:                          # dictionary order of util.build_ttns: parents first, siblings in children order
+            t = np.array(T.tensors[x]).copy()
+            if T.nodes[x].is_root():
+                st.add_root(util.Node(identifier=nm[x]), t)
+            else:
+                p = T.nodes[x].parent
+                st.add_child_to_parent(util.Node(identifier=nm[x]), t, 0, nm[p], st.nodes[nm[p]].nneighbours())
+        ham = sysd["ham"]
+        ham2 = util.Hamiltonian([(fr, g, util.TensorProduct({nm[k]: v for k, v in tp.items()})) for fr, g, tp in ham.terms],
+                                ham.conversion_dictionary, ham.coeffs_mapping)
+        ttno = util.TTNO.from_hamiltonian(copy.deepcopy(ham2), st)
+        order = [nm[i] for i in sysd["ids"]]
+        psi0 = util.dense_vec(copy.deepcopy(st), order)
+        ref0 = util.dense_vec(copy.deepcopy(T), sysd["ids"])
+        if float(np.max(np.abs(psi0 - ref0))) > 1e-12 * max(1.0, float(np.max(np.abs(ref0)))):
+            return {"skip": "renamed state differs from the original (harness)"}
+        measure = make_measure({"ids": order, "H": sysd["H"]})
+        tr = lambda x: None if x is None else inv.get(x, "?" + str(x))      # noqa: E731
+
+        def meas(algo, label, t):
+            m = measure(algo, 0)
+            m["ids"] = sorted(tr(i) for i in m["ids"])
+            m["structure"] = {tr(i): [tr(pc[0]), sorted(tr(c) for c in pc[1])] for i, pc in m["structure"].items()}
+            m["shapes"] = None
+            m["centre"] = tr(m["centre"])
+            m["at"], m["t"] = label, t
+            return m
+        dt = sysd["dt"]
+        nsteps = case.get("nsteps", 1)
+        ob = {"kind": "tdvp2s", "dt": dt, "names": names, "problems": [], "steps": [], "measure": [], "initial_shapes": None,
+              "hscale": float(np.max(np.abs(sysd["H"])))}
+        with duration_guard(dt):
+            try:
+                algo = util.make_evolution("tdvp2s", st, ham2, ttno, dt, dt * nsteps, [], mode=mode_of(case.get("mode", "expm")),
+                                           svd=svd_params(case.get("trunc")), builder=bool(case.get("builder")))
+            except Exception as e:  # noqa
+                return {"exception": f"{type(e).__name__}: {e} (identifiers {names})", "tb": traceback.format_exc()[-1500:], "names": names}
+            ob["update_path"] = [S.nid(inv[x]) if x in inv else -1 for x in algo.update_path]
+            ob["measure"].append(meas(algo, "constructor", 0))
+            ob["psi0_dev"] = float(np.max(np.abs(ob["measure"][0]["vec"] - psi0)))
+            for k in range(1, nsteps + 1):
+                try:
+                    algo.run_one_time_step()
+                except Exception as e:  # noqa
+                    ob["exception"] = f"{type(e).__name__}: {e} (step {k}, identifiers {names})"
+                    ob["tb"] = traceback.format_exc()[-1200:]
+                    break
+                ob["measure"].append(meas(algo, f"step {k}", k))
+        if "exception" not in ob and case["sub"] == "twonode":
+            prop = propagator_herm(sysd["H"])
+            ob["exact_dev"] = [rel_dev(m["vec"], prop(m["t"] * dt) @ psi0, psi0) for m in ob["measure"]]
+        return strip_vecs(ob)
+    except S._Skip as s:
+        return {"skip": str(s)}
+    except Exception as e:  # noqa
+        return {"exception": f"{type(e).__name__}: {e}", "tb": traceback.format_exc()[-1500:], "construct": True}
+
+
 def _run_case(case):
+    if case.get("names"):
+        return _run_named_case(case)
     try:
         sysd = S.build_system(case)
+        prov = apply_provenance(case, sysd) if case.get("prov") else None      # initial state produced by other public operations
+    except S._Skip as s:
+        return {"skip": str(s)}
+    except Exception as e:  # noqa
+        return {"exception": f"{type(e).__name__}: {e}", "tb": traceback.format_exc()[-1500:], "construct": True}
+    with duration_guard(sysd["dt"]):
+        ob = _run_built(case, sysd)
+    if prov is not None and isinstance(ob, dict):
+        ob["prov"] = prov
+    return ob
+
+
+def _run_built(case, sysd):
+    try:
         measure = make_measure(sysd)
         psi0 = util.dense_vec(copy.deepcopy(sysd["ttns"]), sysd["ids"])
         nsteps = case.get("nsteps", 1)
         svd = svd_params(case.get("trunc"))
+        pre = run_prelude(case, sysd) if case.get("prelude") else None      # an earlier run in this process (not judged)
         ob, algo = S.record_run("tdvp2s", sysd, nsteps, check_heff=False, mode=mode_of(case.get("mode", "expm")), svd=svd,
                                 after_step=measure, **S.hist_kwargs(case))
         ob["hscale"] = float(np.max(np.abs(sysd["H"])))
         ob["initial_shapes"] = None
+        if pre is not None:
+            ob["prelude"] = pre
         # --- C07W hook: private run of the same class for the store-level tie (structure after constructor / steps) ---
         if c07w.sampled(case, 0) and not case.get("large"):      # (the structural tie of two-node systems is carried by the small cases)
             ob["w"] = c07w.real_side(case, sysd, mode_of(case.get("mode", "expm")), svd, S.make_algo, S.rtree_json)
@@ -83,7 +219,14 @@ class C07(Prop):
             "2..7 nodes, dense space <= 300) under Hermitian Hamiltonians that keep the degeneracy (diagonal in the product basis with any support; "
             "or sums of single-site terms on the state rotated by random local unitaries), max_bond 1..d-1 with tolerances 0 / 1e-15 / -inf (the cap "
             "binds, inside or at the edge of a multiplet), value / sum mode, renorm, class / builder, 1..3 steps: every bond within [1, max] after "
-            "every step. non-trivial = >= 2 nodes; distinct by content")
+            "every step. Initial states produced by other public operations: the tree grown upwards (subtree first, then 1..k add_parent_to_root "
+            "calls, root last in the node dictionary) with read-only queries (path_from_to, find_path_to_root, distance_to_node, linearise, ...) "
+            "before / between the growth steps, or queried and deep-copied / pickled (truncation disabled; structure against the tree of the case). "
+            "Identifier spellings (oracle only): path naming t, t_L, t_R, t_L_R (separators _ . none; letters L R M / 0 1 2 / a b c; only children "
+            "possibly 'right'), identifiers that are prefixes of each other (q, qq; s1, s12; n_R, n_R_R): two-node exactness with bonds 1..5, "
+            "conservation, truncation bounds. Earlier runs in the same process: the judged run (builder with a fresh default configuration / class) "
+            "follows another TDVP object whose configuration object was changed in place (ODE mode, record_bond_dim). A local update over more than "
+            "2 dt is aborted and reported (cost guard). non-trivial = >= 2 nodes; distinct by content")
     clauses = [
         ("F", "trace2s is defined on every tree with unique ids and >= 2 nodes; the signed durations of a step sum to dt (C07_two_site_runs, C07_total_duration)"),
         ("F", "two nodes (any identifiers): the step consists of exactly two half-step two-site updates on the only edge and no backward site update "
@@ -237,6 +380,46 @@ class C07(Prop):
                     "bond": {1: rng.choice([1, 2, 3, 4])}, "mode": "default" if j % 2 else "expm", "nsteps": rng.choice([1, 2]),
                     "nterms": rng.choice([2, 3, 4])}
         cases += S.gen_scaled_cases(rng, ctx.scale(15, 300) * budget_scale, ["tdvp2s"], sbase, saturated=stwo)
+        # INITIAL STATES PRODUCED BY OTHER PUBLIC OPERATIONS ("all initial states"): the same tensors on the same tree, but the
+        # tree was grown UPWARDS (subtree first, then 1..k add_parent_to_root calls; the root is the last entry of the node
+        # dictionary) with read-only queries (path_from_to, find_path_to_root, distance_to_node, ...) before and between the
+        # growth steps, or queried and then deep-copied / pickled: truncation disabled, structure against the tree of the case,
+        # canonical form, conservation (c06.derive_state)
+
+        def prfields(rng, j, par):
+            return {"sub": "run", "coeffs": j % 4 == 0, "ttno_shuffle": j % 2 == 0, "mode": "default" if j % 5 == 0 else "expm",
+                    "nterms": rng.choice([1, 2, 3]), "nsteps": rng.choice([1, 2]) if len(par) <= 5 else 1}
+        cases += gen_provenance_cases(rng, ctx.scale(10, 160) * budget_scale, ["tdvp2s"], prfields)
+        # IDENTIFIER SPELLINGS ("all trees": the identifiers are the caller's): path naming of trees (t, t_L, t_R, t_L_L, ...: every
+        # inner node's identifier is a prefix of its descendants', an only child may be the "right" one; separators _ . or none;
+        # letters L R M / 0 1 2 / a b c, all nine combinations in turn) and identifiers that are prefixes of each other across the tree (q, qq, qqq; s1, s12;
+        # n_R, n_R_R); two-node exactness with bonds 1..5, conservation runs and truncation (bond bounds); oracle only
+        name_trees = [[None, 0], [None, 0], [None, 0, 0], [None, 0, 0, 1, 1], [None, 0, 1, 1], [None, 0, 0, 1, 1, 2, 2], [None, 0, 1, 1, 2, 2]]
+        for rep in range(ctx.scale(15, 220) * budget_scale):
+            par = name_trees[rep % len(name_trees)] if rep % 3 != 2 else S.random_tree(rng, rng.choice([2, 3, 4, 5, 6]))
+            c = {"par": par, "kind": "tdvp2s", "sub": "run", "seed": rng.randrange(10 ** 9), "herm": True, "coeffs": rep % 4 == 0,
+                 "mode": "default" if rep % 5 == 0 else "expm", "nsteps": rng.choice([1, 2, 3]) if len(par) <= 5 else 1,
+                 "nterms": rng.choice([1, 2, 3]), "names": gen_spelling(rng, par, rep), "builder": rep % 6 == 5}
+            if len(par) == 2:
+                c.update({"sub": "twonode", "phys": [rng.choice([2, 3]), rng.choice([2, 3])], "bond": {1: rng.choice([1, 2, 3, 4, 5])},
+                          "nterms": rng.choice([2, 3, 4])})
+            elif rep % 4 == 1:
+                c.update({"sub": "trunc", "trunc": {"max_bond": rng.choice([1, 2, 3]), "rel_tol": rng.choice([0.0, 1e-3, float("-inf")]),
+                                                    "total_tol": rng.choice([0.0, 1e-2, float("-inf")]), "sum_trunc": rep % 3 == 0,
+                                                    "renorm": rep % 8 == 1}})
+            cases.append(c)
+        # EARLIER RUNS IN THE SAME PROCESS (c06.run_prelude): the judged run (fresh default TDVPConfig(order=2, sites=2, svd_params) of
+        # the builder, or the class) follows another TDVP object whose configuration object was changed in place; they go first
+        # (the workers of the pool are reused: the replay of the case that carries the whole history is self-contained)
+
+        def pfields(rng, j):
+            if j % 2 == 0:
+                return {"par": [None, 0], "sub": "twonode", "phys": [rng.choice([2, 3]), rng.choice([2, 3])], "bond": {1: rng.choice([1, 2, 3, 4])},
+                        "mode": "expm", "nsteps": rng.choice([1, 2]), "nterms": rng.choice([2, 3, 4]), "coeffs": j % 4 == 0}
+            par = rng.choice([p for p in S.SPECIAL_TREES if len(p) <= 5])
+            return {"par": par, "sub": "run", "coeffs": j % 4 == 1, "ttno_shuffle": j % 3 == 0, "mode": "expm",
+                    "nsteps": rng.choice([1, 2]), "nterms": rng.choice([1, 2, 3])}
+        cases = gen_prelude_cases(rng, ctx.scale(4, 48) * budget_scale, ["tdvp2s"], pfields) + cases
         return cases
 
     def nontrivial(self, case):
@@ -261,6 +444,14 @@ class C07(Prop):
                 c["ghz-type:cap-inside-multiplet" if g[mb - 1] == g[mb] else "ghz-type:cap-between-multiplets"] += 1
             if x.get("builder"):
                 c["via-builder:" + x["sub"]] += 1
+            if x.get("prov"):
+                c["initial-state:grown-by-%d-add_parent_to_root" % x["prov"]["grow"] if x["prov"].get("grow") else "initial-state:queried"] += 1
+                if x["prov"].get("copy"):
+                    c["initial-state:" + x["prov"]["copy"]] += 1
+            if x.get("names"):
+                c["identifiers:" + x["names"]["kind"] + (":sep=" + repr(x["names"]["sep"]) if x["names"]["kind"] == "path" else "")] += 1
+            if x.get("prelude"):
+                c["after-earlier-run:" + x["prelude"]["route"] + ("/fresh-default-config" if x.get("builder") else "/explicit-config")] += 1
             if x.get("trunc"):
                 c[f"max_bond={x['trunc']['max_bond']}"] += 1
                 c["sum_trunc" if x["trunc"]["sum_trunc"] else "value_trunc"] += 1
@@ -298,9 +489,21 @@ class C07(Prop):
             return f"{kind}: {ob['problems'][0]}"
         if ob["psi0_dev"] is None or ob["psi0_dev"] > TOL:
             return f"{kind}: the constructor changed the represented state by {ob['psi0_dev']}"
+        if case.get("names") or case.get("prov"):
+            # (the state after the constructor is the reference of structural_oracle: here it is itself compared with the tree of the case)
+            par = case["par"]
+            want = {f"n{i}": [None if par[i] is None else f"n{par[i]}", sorted(f"n{c}" for c in range(len(par)) if par[c] == i)] for i in range(len(par))}
+            for m in ob["measure"]:
+                if m["ids"] != sorted(want) or (m["centre"] is not None and m["centre"] not in want):
+                    return (f"{kind} at '{m.get('at', 'constructor')}': node identifiers {m['ids']} / recorded centre {m['centre']} are not those of "
+                            f"the initial state (tree {par}, identifiers {ob.get('names')}; '?' marks an identifier the initial state does not have)")
+            m0 = ob["measure"][0]
+            if m0["ids"] != sorted(want) or {i: [pc[0], sorted(pc[1])] for i, pc in m0["structure"].items()} != want:
+                return (f"{kind} after the constructor: node identifiers / parent-child relations {m0['structure']} are not those of the initial "
+                        f"state (tree {par}, identifiers {ob.get('names')})")
         d = structural_oracle(kind, ob, first_expected=True, check_shapes=False)
         if d:
-            return d
+            return d + (f" (identifiers {ob['names']})" if ob.get("names") else "")
         for k, st in enumerate(ob["steps"]):
             d = S.observed_durations(case["par"], kind, st)
             if d:
